@@ -104,6 +104,9 @@ def run_recordfile(out, tier, rnd):
         if '_crash' in t or '_hang' in t:
             raise Machinery('RecordFile replay failed: %r' % (t,))
     out.cov['recordfile_call_sequences'] = len(res)
+    out.cov['evaluations'] += len(res)
+    out.cov['distinct_nontrivial'] += len(set(
+        (tuple(t['lens']), tuple(s['op'] for s in t['steps'])) for t in res))
     verdicts = validate_traces('RecordFile_Trace', res, out, shard=400,
                                label='RecordFile')
     settle(out, res, verdicts, None)
